@@ -177,7 +177,7 @@ def corrupt(rng, rows):
     dup = json.loads(json.dumps(c[i]))
     if kind == "repeat":
         dup["res"], dup["resS"] = "0" * 16, "1" * 16
-        exp = "Deterministic"
+        exp = "Deterministic|DeterministicAcrossHashSeeds|StoreIsWriteOnly"   # named after where the first result came from
     else:
         if not dup["sc"]:
             return None
@@ -294,7 +294,7 @@ def run(ctx):
                      ("Write(vcf,A)", "Write(decomposition,B)"), ("GenotypeMulti(cn/s1,AB)", "Genotype(vcf/s1,B)"),
                      ("Stage(major,B)", "Accessor(MinorSolution.get_mutation_coverages,AB)"), ("Genotype(aldy/s2,A)", "Stage(cn,B)")]
         else:
-            sweep = [("Stage(minor,B)", "Stage(minor,A)"), ("Write(vcf,B)", "Write(decomposition,A)"), ("Stage(major,B)", "Stage(cn,A)"),
+            sweep = [("Stage(minor,B)", "Stage(minor,A)"), ("Query(minor,B)", "Query(major,A)"), ("Write(vcf,B)", "Write(decomposition,A)"), ("Stage(major,B)", "Stage(cn,A)"),
                      ("Accessor(Coverage.filtered,AB)", "Accessor(SolvedAllele.__str__,AB)"), ("Query(all,A)", "Query(minor,B)")]
         # store sweeps: o1, o2, Store(clear|poison), o1, o2 (same process: only the debug store differs)
         stsweep = ([("Genotype(aldy/s1,A)", "Stage(cn,B)"), ("Stage(cn,A)", "GenotypeMulti(aldy/s1,AB)"), ("Stage(major,A)", "Genotype(cn/s1,B)")]
@@ -416,8 +416,9 @@ def run(ctx):
         for tid, clause, i, part in crej:
             got.setdefault(tid, set()).add(clause)
         for ctid, exp in expect.items():
-            ctx.canary(exp in got.get(ctid, set()))
-            if exp not in got.get(ctid, set()):
+            hit = bool(set(exp.split("|")) & got.get(ctid, set()))
+            ctx.canary(hit)
+            if not hit:
                 print(f"[C14] canary {ctid} expected {exp}, got {sorted(got.get(ctid, set()))}: "
                       f"{[(r['i'], W.op_key(r['op']), r['seed'], r['res']) for r in crow if r['tid'] == ctid][:40]}")
     if not expect and not bad:
